@@ -1,0 +1,150 @@
+//go:build verif
+
+package agent
+
+import (
+	"sort"
+
+	"github.com/postalsys/muti-metroo/internal/exit"
+	"github.com/postalsys/muti-metroo/internal/forward"
+	"github.com/postalsys/muti-metroo/internal/identity"
+	"github.com/postalsys/muti-metroo/internal/peer"
+	"github.com/postalsys/muti-metroo/internal/protocol"
+	"github.com/postalsys/muti-metroo/internal/stream"
+)
+
+// VerifRelayEntry is the exported copy of relayEntry.
+type VerifRelayEntry struct {
+	UpstreamPeer   identity.AgentID
+	UpstreamID     uint64
+	DownstreamPeer identity.AgentID
+	DownstreamID   uint64
+}
+
+func verifEntry(e *relayEntry) *VerifRelayEntry {
+	if e == nil {
+		return nil
+	}
+	return &VerifRelayEntry{e.UpstreamPeer, e.UpstreamID, e.DownstreamPeer, e.DownstreamID}
+}
+
+// VerifRelaySnapshot is the content of both indices of a relayTable, each
+// sorted by key.
+type VerifRelaySnapshot struct {
+	ByUpstream   []VerifRelayIndexed
+	ByDownstream []VerifRelayIndexed
+}
+
+// VerifRelayIndexed is one index slot: key -> entry.
+type VerifRelayIndexed struct {
+	Key   uint64
+	Entry VerifRelayEntry
+}
+
+func verifSnapshot(r *relayTable) VerifRelaySnapshot {
+	var s VerifRelaySnapshot
+	r.mu.RLock()
+	for k, e := range r.byUpstream {
+		s.ByUpstream = append(s.ByUpstream, VerifRelayIndexed{k, *verifEntry(e)})
+	}
+	for k, e := range r.byDownstream {
+		s.ByDownstream = append(s.ByDownstream, VerifRelayIndexed{k, *verifEntry(e)})
+	}
+	r.mu.RUnlock()
+	sort.Slice(s.ByUpstream, func(i, j int) bool { return s.ByUpstream[i].Key < s.ByUpstream[j].Key })
+	sort.Slice(s.ByDownstream, func(i, j int) bool { return s.ByDownstream[i].Key < s.ByDownstream[j].Key })
+	return s
+}
+
+// VerifRelayTable is an add-only facade over the unexported relayTable: every
+// operation of relay_table.go, plus a snapshot of both indices. Entries are
+// addressed by the handle Insert returned (the agent code keeps the *relayEntry
+// pointer for Delete in the same way).
+type VerifRelayTable struct {
+	t       *relayTable
+	entries []*relayEntry
+}
+
+func NewVerifRelayTable() *VerifRelayTable { return &VerifRelayTable{t: newRelayTable()} }
+
+func (v *VerifRelayTable) Insert(e VerifRelayEntry) int {
+	re := &relayEntry{UpstreamPeer: e.UpstreamPeer, UpstreamID: e.UpstreamID, DownstreamPeer: e.DownstreamPeer, DownstreamID: e.DownstreamID}
+	v.entries = append(v.entries, re)
+	v.t.Insert(re)
+	return len(v.entries) - 1
+}
+func (v *VerifRelayTable) Delete(handle int) { v.t.Delete(v.entries[handle]) }
+func (v *VerifRelayTable) LookupBoth(id uint64) (up, down *VerifRelayEntry) {
+	u, d := v.t.LookupBoth(id)
+	return verifEntry(u), verifEntry(d)
+}
+func (v *VerifRelayTable) LookupDownstream(id uint64) *VerifRelayEntry {
+	return verifEntry(v.t.LookupDownstream(id))
+}
+func (v *VerifRelayTable) PopDownstreamFromPeer(id uint64, p identity.AgentID) *VerifRelayEntry {
+	return verifEntry(v.t.PopDownstreamFromPeer(id, p))
+}
+func (v *VerifRelayTable) PopMatchingPeer(id uint64, p identity.AgentID) (*VerifRelayEntry, bool) {
+	e, up := v.t.PopMatchingPeer(id, p)
+	return verifEntry(e), up
+}
+func (v *VerifRelayTable) DeleteByPeer(p identity.AgentID) int { return v.t.DeleteByPeer(p) }
+func (v *VerifRelayTable) Snapshot() VerifRelaySnapshot        { return verifSnapshot(v.t) }
+
+// ---------------------------------------------------------------------------
+// agent-level hooks: the harness plays the neighbouring agents and delivers
+// frames at handler granularity.
+
+// VerifProcessFrame runs the agent's frame dispatcher for one frame received
+// from peerID (what peer.Connection.drainFrames does through OnFrame).
+func (a *Agent) VerifProcessFrame(peerID identity.AgentID, frame *protocol.Frame) {
+	a.processFrame(peerID, frame)
+}
+
+// VerifPeerManager exposes the peer manager (to register harness connections).
+func (a *Agent) VerifPeerManager() *peer.Manager { return a.peerMgr }
+
+// VerifPeerDisconnect does what the peer manager does when the connection to
+// peerID ends: remove it from the peers map, then notify the agent.
+func (a *Agent) VerifPeerDisconnect(peerID identity.AgentID) {
+	if c := a.peerMgr.VerifUnregister(peerID); c != nil {
+		c.Close()
+		a.handlePeerDisconnect(c, nil)
+	}
+}
+
+// VerifRelaySnapshot returns both indices of the tcp / udp / icmp relay table.
+func (a *Agent) VerifRelaySnapshot(kind string) VerifRelaySnapshot {
+	switch kind {
+	case "udp":
+		return verifSnapshot(a.udpRelay)
+	case "icmp":
+		return verifSnapshot(a.icmpRelay)
+	}
+	return verifSnapshot(a.tcpRelay)
+}
+
+// VerifControlState returns the request ids of pendingControl (sorted), the
+// forwardedControl map as (id, source peer) sorted by id, and nextControlID.
+func (a *Agent) VerifControlState() (pending []uint64, fwdIDs []uint64, fwdPeers []identity.AgentID, next uint64) {
+	a.controlMu.RLock()
+	defer a.controlMu.RUnlock()
+	for id := range a.pendingControl {
+		pending = append(pending, id)
+	}
+	sort.Slice(pending, func(i, j int) bool { return pending[i] < pending[j] })
+	for id := range a.forwardedControl {
+		fwdIDs = append(fwdIDs, id)
+	}
+	sort.Slice(fwdIDs, func(i, j int) bool { return fwdIDs[i] < fwdIDs[j] })
+	for _, id := range fwdIDs {
+		fwdPeers = append(fwdPeers, a.forwardedControl[id].SourcePeer)
+	}
+	return pending, fwdIDs, fwdPeers, a.nextControlID
+}
+
+// VerifExitHandler / VerifForwardHandler / VerifStreamManager expose the
+// local endpoints the dispatcher falls through to.
+func (a *Agent) VerifExitHandler() *exit.Handler       { return a.exitHandler }
+func (a *Agent) VerifForwardHandler() *forward.Handler { return a.forwardHandler }
+func (a *Agent) VerifStreamManager() *stream.Manager   { return a.streamMgr }
